@@ -355,11 +355,15 @@ def real_stages(m: onnx.ModelProto, call: dict, ctx: dict, lits: L.Lits) -> dict
                 rec["called"] = True
                 rec["version"] = version
                 try:
-                    rec["result"] = real_conv(model, version)
+                    res = real_conv(model, version)
+                    # adapt_inline edits the converter's result in place (_initializers_to_constants): the model is
+                    # given the RAW result and applies that step itself (`initsToConstants`)
+                    rec["result"] = onnx.ModelProto()
+                    rec["result"].CopyFrom(res)
                 except Exception as e:  # noqa: BLE001
                     rec["raised"] = type(e).__name__
                     raise
-                return rec["result"]
+                return res
 
             adapt_fn = A.adapt_inline
         except Exception as e:  # noqa: BLE001
@@ -1354,6 +1358,17 @@ def fixed_corner_models() -> list[tuple[onnx.ModelProto, dict]]:
     sp = H.make_sparse_tensor(NH.from_array(np.array([3.0], np.float32), "s"), NH.from_array(np.array([1], np.int64), ""), [2])
     out.append((mk([H.make_node("Add", ["x", "s"], ["y"])], [f2("x")], [f2("y")], opset=14, sparse_initializer=[sp]),
                 ["sparse-initializer", "opset-14"]))
+    # --- the converter turns a former attribute into a graph INITIALIZER (pads of Pad-10): adapt_inline makes it a Constant
+    p10 = mk([H.make_node("Pad", ["x"], ["p"], pads=[1, 0], mode="constant", value=0.5), H.make_node("Neg", ["p"], ["y"])],
+             [f2("x")], [f2("y", (3,))], opset=10)
+    p10.ir_version = 5
+    out.append((p10, ["opset-10", "converter-introduces-initializer", "no-chain"]))
+    p10b_t = H.make_graph([H.make_node("Pad", ["x"], ["t"], pads=[0, 1], mode="edge")], "then_g", [], [f2("t", (3,))])
+    p10b_e = H.make_graph([H.make_node("Pad", ["x"], ["t"], pads=[1, 0], mode="reflect")], "else_g", [], [f2("t", (3,))])
+    p10b = mk([H.make_node("Pad", ["x"], ["q"], pads=[0, 0]), H.make_node("If", ["c"], ["y"], then_branch=p10b_t, else_branch=p10b_e)],
+              [f2("x"), bvi("c", TP.BOOL, [])], [f2("y", (3,)), f2("q")], opset=10)
+    p10b.ir_version = 5
+    out.append((p10b, ["opset-10", "converter-introduces-initializer", "body-initializer", "no-chain"]))
     # --- literal 0 dimensions, dim_param "", dimensions without fields in the declared types
     z = H.make_model(H.make_graph([H.make_node("Add", ["x", "y"], ["s"]), H.make_node("Abs", ["s"], ["o"])], "g",
                                   [f2("x", (0, 3)), f2("y", ("", 3))], [f2("o", (0, 3)), f2("s", (None, 3))], doc_string="runtime-shape:[0, 3]"),
